@@ -39,13 +39,13 @@ Ltac sm_simpl :=
   cbv beta iota zeta delta [zero one add sub mul div neg sqrt_ sin_ cos_ tan_ acos_ asin_ atan_ atan2_ abs_ floor_ exp_ ln_
        ltb leb eqb of_Z eps pi_f Rops fst snd] in *.
 Ltac destruct_tuples :=
-  repeat match goal with x : (_ * _)%type |- _ => destruct x end;
-  repeat match goal with x : V2 _ |- _ => destruct x | x : V3 _ |- _ => destruct x
-                       | x : V4 _ |- _ => destruct x | x : V6 _ |- _ => destruct x
-                       | x : V8 _ |- _ => destruct x
-                       | x : M22 _ |- _ => destruct x | x : M33 _ |- _ => destruct x
-                       | x : M44 _ |- _ => destruct x | x : M66 _ |- _ => destruct x
-                       | x : M88 _ |- _ => destruct x end;
-  repeat match goal with x : (_ * _)%type |- _ => destruct x end.
+  repeat match goal with
+         | x : (_ * _)%type |- _ => destruct x
+         | x : V2 _ |- _ => destruct x | x : V3 _ |- _ => destruct x
+         | x : V4 _ |- _ => destruct x | x : V6 _ |- _ => destruct x
+         | x : V8 _ |- _ => destruct x
+         | x : M22 _ |- _ => destruct x | x : M33 _ |- _ => destruct x
+         | x : M44 _ |- _ => destruct x | x : M66 _ |- _ => destruct x
+         | x : M88 _ |- _ => destruct x end.
 Ltac tuple_eq tac :=
   repeat match goal with |- (_, _) = (_, _) => apply f_equal2 end; tac.
